@@ -553,6 +553,10 @@ def _worker(idx):
             dis = cosim(inst, lean, cov, rng, **job.kw)
         elif job.mode == "R":
             dis = route_pairs(inst, lean, cov, **kw)
+        elif job.mode == "AP":
+            dis = coexplore_ports(inst, lean, cov, **kw)
+        elif job.mode == "BP":
+            dis = cosim_ports(inst, lean, cov, rng, **kw)
         elif job.mode == "A0":
             dis = explore.coexplore(inst, lean, cov, **job.kw)
         else:
@@ -859,4 +863,532 @@ def route_pairs(inst, lean, cov, deadline=None):
     cov.instances[-1].update({"wall_s": round(time.time() - t0, 1), "stability_checks": checks,
                               "contract_obeying_letter_pairs": pairs, "registers": len(n.regs)})
     cov.hist["stability_checks"] = cov.hist.get("stability_checks", 0) + checks
+    return out
+
+
+# ---------------------------------------------------------------------------------------------------------
+# packet.py elements (Arbiter, Dispatcher, PacketFIFO, Packetizer, Depacketizer): multi-port views.
+# The instances are built by c16lib's constructors (letters/outputs in the port order of
+# lean/LitexModel/Packet/Num.lean); the monitors below only look at those ports.
+
+class PView:
+    """One cycle of a multi-port packet element.
+       sinks(letter)        -> [(valid, token...)]   what each producer drives
+       sink_ready(outs)     -> [ready]
+       sources(outs)        -> [(valid, token...)]   what the element drives on each source
+       source_ready(letter) -> [ready]
+       ctrl(letter)         -> control inputs that must be held while a token waits at a source (Dispatcher: sel)
+       env / legal          -> the producer-side protocol state (packet length so far) and which letters a
+                               well-formed producer may drive (PacketFIFO: packets <= payload_depth;
+                               Depacketizer: a packet is at least header + one payload beat)
+       coop_modes / coop_letters / bounds -> cooperative runs of the progress watchdog and the bounds promised."""
+    kind = "?"
+
+    def env0(self):
+        return 0                  # None is reserved for "the producer left the well-formed region"
+
+    def env_next(self, env, letter, outs):
+        return env
+
+    def legal(self, env, letter):
+        return True
+
+    def ctrl(self, letter):
+        return ()
+
+    def set_ctrl(self, l, c):
+        pass
+
+    def pending(self, letter, outs):
+        sp = tuple((k, s) for k, (s, r) in enumerate(zip(self.sinks(letter), self.sink_ready(outs))) if s[0] and not r)
+        op = tuple((k, s[1:]) for k, (s, r) in enumerate(zip(self.sources(outs), self.source_ready(letter)))
+                   if s[0] and not r)
+        cp = self.ctrl(letter) if op else None
+        return sp, op, (cp if cp else None)
+
+    def obeys(self, sp, cp, letter):
+        cur = self.sinks(letter)
+        if any(cur[k] != s for k, s in sp):
+            return False
+        return cp is None or self.ctrl(letter) == cp
+
+    def check(self, op, outs):
+        src = self.sources(outs)
+        for k, tok in op:
+            if not src[k][0]:
+                return "source %d: valid retracted, token %r was offered, not taken (ready=0), and is gone" % (k, tok)
+            if tuple(src[k][1:]) != tuple(tok):
+                return "source %d: token changed while valid and not ready: %r -> %r" % (k, tok, tuple(src[k][1:]))
+        return None
+
+    def events(self, letter, outs):
+        acc = any(s[0] and r for s, r in zip(self.sinks(letter), self.sink_ready(outs)))
+        dlv = any(s[0] and r for s, r in zip(self.sources(outs), self.source_ready(letter)))
+        return {"handshake": bool(acc or dlv), "delivery": bool(dlv)}
+
+
+class SSView(PView):
+    """One sink, one source: letter = (valid, token..., source.ready); outs = [sink.ready, source.valid, token...]."""
+    kind = "ss"
+
+    def __init__(self, alphabet, k_hs, k_del, last_idx=None):
+        self.k_hs, self.k_del = k_hs, k_del
+        self.last_idx = last_idx                       # index of `last` in the letter
+        coop = [l for l in alphabet if l[0] == 1 and l[-1] == 1]
+        self.coop = []
+        for want in (0, 1):                            # one letter with last = 0, one with last = 1
+            for l in coop:
+                if last_idx is None or l[last_idx] == want:
+                    self.coop.append(l)
+                    break
+        self.coop = list(dict.fromkeys(self.coop)) or None
+
+    def sinks(self, letter):
+        return [tuple(letter[:-1])]
+
+    def sink_ready(self, outs):
+        return [outs[0]]
+
+    def sources(self, outs):
+        return [tuple(outs[1:])]
+
+    def source_ready(self, letter):
+        return [letter[-1]]
+
+    def set_sink(self, l, k, s):
+        l[:-1] = s
+
+    def coop_modes(self):
+        return [None]
+
+    def coop_letters(self, mode, env):
+        return [l for l in self.coop if self.legal(env, l)]
+
+    def is_coop(self, letter, env):
+        return letter[0] == 1 and letter[-1] == 1
+
+    def bounds(self, mode):
+        return {"handshake": self.k_hs, "delivery": self.k_del}
+
+
+class PacketFifoView(SSView):
+    """letter = (valid, data, param, last, ready).  Documented limit of the store-and-forward FIFO: a packet longer
+    than payload_depth never completes, so the producer keeps packets <= payload_depth (env = beats accepted
+    since the last accepted `last`)."""
+    kind = "packetfifo"
+
+    def __init__(self, alphabet, pd, k_hs, k_del):
+        SSView.__init__(self, alphabet, k_hs, k_del, last_idx=3)
+        self.pd = pd
+
+    def env0(self):
+        return 0
+
+    def env_next(self, env, letter, outs):
+        if env is None:
+            return None
+        if letter[0] and not letter[3] and env + 1 >= self.pd:
+            return None                                 # over-long packet: outside the progress obligation
+        if letter[0] and outs[0]:
+            return 0 if letter[3] else env + 1
+        return env
+
+    def legal(self, env, letter):
+        return env is not None and not (letter[0] and not letter[3] and env + 1 >= self.pd)
+
+
+class DepackView(SSView):
+    """letter = (valid, data, last, ready).  A framed packet carries the whole header and at least one payload beat:
+    `last` is low during the first W = header_words beats (env = index of the next beat in its packet)."""
+    kind = "depacketizer"
+
+    def __init__(self, alphabet, W, k_hs, k_del):
+        SSView.__init__(self, alphabet, k_hs, k_del, last_idx=2)
+        self.W = W
+
+    def env0(self):
+        return 0
+
+    def env_next(self, env, letter, outs):
+        if env is None or (letter[0] and letter[2] and env < self.W):
+            return None
+        if letter[0] and outs[0]:
+            return 0 if letter[2] else min(env + 1, self.W)
+        return env
+
+    def legal(self, env, letter):
+        return env is not None and not (letter[0] and letter[2] and env < self.W)
+
+
+class ArbiterView(PView):
+    """letter = ((valid, data, last) per master, slave.ready); outs = [master_k.ready..., slave.valid, data, last,
+    grant].  The arbiter is packet-atomic by design: a master that pauses in the middle of its packet keeps the
+    grant.  Cooperative therefore means: the slave is ready, some master offers, and every master with an open
+    packet (env = one flag per master: it has shown valid since its last transferred `last` beat) offers."""
+    kind = "arbiter"
+
+    def env0(self):
+        return (0,) * self.n
+
+    def env_next(self, env, letter, outs):
+        sk, rd = self.sinks(letter), self.sink_ready(outs)
+        return tuple(int((sk[k][0] or env[k]) and not (sk[k][0] and sk[k][2] and rd[k])) for k in range(self.n))
+
+    def __init__(self, n, alphabet, k_hs, k_del):
+        self.n, self.k_hs, self.k_del = n, k_hs, k_del
+        self.dvals = sorted(set(l[1] for l in alphabet)) if alphabet else [0, 1]
+
+    def sinks(self, letter):
+        return [tuple(letter[3 * k:3 * k + 3]) for k in range(self.n)]
+
+    def sink_ready(self, outs):
+        return list(outs[:self.n])
+
+    def sources(self, outs):
+        return [tuple(outs[self.n:self.n + 3])]
+
+    def source_ready(self, letter):
+        return [letter[3 * self.n]]
+
+    def set_sink(self, l, k, s):
+        l[3 * k:3 * k + 3] = s
+
+    def coop_modes(self):
+        return [m for m in range(1, 1 << self.n)]
+
+    def coop_letters(self, mode, env):
+        if any(env[k] and not (mode >> k) & 1 for k in range(self.n)):
+            return []
+        out = []
+        for last in (0, 1):
+            l = []
+            for k in range(self.n):
+                l += [1, self.dvals[-1], last] if (mode >> k) & 1 else [0, 0, 0]
+            out.append(tuple(l) + (1,))
+        return out
+
+    def is_coop(self, letter, env):
+        val = [letter[3 * k] for k in range(self.n)]
+        return letter[3 * self.n] == 1 and any(val) and all(val[k] for k in range(self.n) if env[k])
+
+    def bounds(self, mode):
+        return {"handshake": self.k_hs, "delivery": self.k_del}
+
+
+class DispatcherView(PView):
+    """letter = (valid, data, last, sel, slave_k.ready...); outs = [master.ready, (valid, data, last) per slave].
+    Cooperative: the master offers, every slave is ready, `sel` is anything (also a value that addresses no slave:
+    the packet is then drained, master.ready = 1).  `sel` is held while a token waits at a slave."""
+    kind = "dispatcher"
+
+    def __init__(self, m, nsel, alphabet, k_hs):
+        self.m, self.nsel, self.k_hs = m, nsel, k_hs
+        self.dvals = sorted(set(l[1] for l in alphabet)) if alphabet else [0, 1]
+
+    def sinks(self, letter):
+        return [tuple(letter[0:3])]
+
+    def sink_ready(self, outs):
+        return [outs[0]]
+
+    def sources(self, outs):
+        return [tuple(outs[1 + 3 * k:4 + 3 * k]) for k in range(self.m)]
+
+    def source_ready(self, letter):
+        return list(letter[4:4 + self.m])
+
+    def ctrl(self, letter):
+        return (letter[3],)
+
+    def set_ctrl(self, l, c):
+        l[3] = c[0]
+
+    def set_sink(self, l, k, s):
+        l[0:3] = s
+
+    def coop_modes(self):
+        return list(range(self.nsel))
+
+    def coop_letters(self, mode, env):
+        return [(1, self.dvals[-1], last, mode) + (1,) * self.m for last in (0, 1)]
+
+    def is_coop(self, letter, env):
+        return letter[0] == 1 and all(letter[4:4 + self.m])
+
+    def bounds(self, mode):
+        return {"handshake": self.k_hs, "delivery": None}
+
+
+class PortMonitor:
+    """Trace monitor for a packet element: stability of every source (armed while every producer and the control
+    inputs keep their part) and the progress watchdog (from any state, while the producers stay well-formed)."""
+
+    def __init__(self, view, slack=2):
+        self.v = view
+        self.slack = slack
+        self.armed = True
+        self.prev = None
+        self.env = view.env0()
+        self.run = {"handshake": 0, "delivery": 0}
+        self.checks = 0
+
+    def observe(self, letter, outs):
+        v = self.v
+        msg = None
+        if self.prev is not None:
+            sp, op, cp = self.prev
+            if not v.obeys(sp, cp, letter):
+                self.armed = False
+            elif self.armed and op:
+                self.checks += 1
+                msg = v.check(op, outs)
+        legal = v.legal(self.env, letter)
+        if msg is None and legal and v.is_coop(letter, self.env):
+            ev = v.events(letter, outs)
+            b = v.bounds(None) if v.kind != "dispatcher" else v.bounds(letter[3])
+            for k in self.run:
+                self.run[k] = 0 if ev[k] else self.run[k] + 1
+                if b.get(k) is not None and self.run[k] >= b[k] + self.slack:
+                    msg = "no %s in %d consecutive cooperative cycles" % (k, self.run[k])
+                    break
+        else:
+            self.run = {"handshake": 0, "delivery": 0}
+        self.env = v.env_next(self.env, letter, outs)
+        self.prev = v.pending(letter, outs)
+        return msg
+
+
+class PortC04Inst:
+    """A c16lib.PortInst with the C04 view, monitor and a contract-keeping closed-loop generator."""
+
+    def __init__(self, inner, view):
+        self.inner, self.view = inner, view
+        self.name, self.lean_open, self.netlist, self.qual = inner.name, inner.lean_open, inner.netlist, inner.qual
+        self.alphabet = inner.alphabet
+        self._pend = None
+
+    def apply(self, letter):
+        self.inner.apply(letter)
+
+    def sample(self):
+        outs = self.inner.sample()
+        self._pend = self.view.pending(self.inner.last_letter, outs)
+        return outs
+
+    def nontrivial(self, letter, outs):
+        return self.view.events(letter, outs)["handshake"]
+
+    def gen(self, rng, t):
+        if t == 0:
+            self._pend = None
+        l = list(self.inner.gen(rng, t))
+        if self._pend is not None:
+            sp, op, cp = self._pend
+            for k, s in sp:
+                self.view.set_sink(l, k, s)
+            if cp is not None:
+                self.view.set_ctrl(l, cp)
+        return tuple(l)
+
+    def monitor(self):
+        return PortMonitor(self.view)
+
+
+def port_gaps(inst, snap, env, budget=300, slack=2):
+    """Cooperative watchdog from a register snapshot of a packet element (see `coop_gaps`)."""
+    n = inst.netlist
+    v = inst.view
+    worst = {"handshake": 0, "delivery": 0}
+    steps = 0
+    for mode in v.coop_modes():
+        want = v.bounds(mode)
+        stack = [(snap, env, [], {k: None for k in want})]
+        while stack:
+            s, e, letters, first = stack.pop()
+            depth = len(letters)
+            cands = v.coop_letters(mode, e)
+            for letter in (cands if steps < budget else cands[:1]):
+                n.restore(s)
+                outs = impl_step(inst, letter)
+                steps += 1
+                ls = letters + [letter]
+                ev = v.events(letter, outs)
+                f2 = dict(first)
+                open_ = False
+                for k, kk in want.items():
+                    if kk is None:
+                        continue
+                    if f2[k] is None and ev[k]:
+                        f2[k] = depth + 1
+                        worst[k] = max(worst[k], depth + 1)
+                    if f2[k] is None:
+                        open_ = True
+                        if depth + 1 >= kk + slack:
+                            worst[k] = max(worst[k], depth + 1)
+                            return worst, ls, "no %s in %d cooperative cycles" % (k, depth + 1), mode
+                if open_:
+                    stack.append((n.snapshot(), v.env_next(e, letter, outs), ls, f2))
+    return worst, None, None, None
+
+
+def port_over(inst, worst):
+    b = {"handshake": 0, "delivery": 0}
+    for mode in inst.view.coop_modes():
+        for k, kk in inst.view.bounds(mode).items():
+            if kk is not None:
+                b[k] = max(b[k], kk)
+    return [(k, worst[k], b[k]) for k in worst if b[k] and worst[k] > b[k]]
+
+
+def coexplore_ports(inst, lean, cov, max_states=100000, deadline=None):
+    """Mode A for packet elements: product of (implementation registers, model state, pending obligations,
+    producer protocol state, armed) over every *well-formed* letter; port comparison with the model, stability
+    check on every boundary the environment keeps, watchdog from every distinct (registers, protocol state)."""
+    n = inst.netlist
+    v = inst.view
+    t0 = time.time()
+    lean.open(inst.lean_open)
+    root_snap = n.snapshot()
+    root = (n.state_key(), 0, (), (), None, v.env0(), True)
+    seen = {root: (None, None)}
+    frontier = deque([(root_snap, root)])
+    transitions = nontriv = checks = 0
+    watched = set()
+    maxgap = {"handshake": 0, "delivery": 0}
+    out = []
+    exhaustive = True
+    while frontier and len(out) < 6:
+        if (deadline is not None and time.time() > deadline) or len(seen) > max_states:
+            exhaustive = False
+            break
+        batch = [frontier.popleft() for _ in range(min(len(frontier), 128))]
+        reqs, impl_res = [], []
+        for snap, st in batch:
+            key, sid, sp, op, cp, env, armed = st
+            if env is not None and (key, env) not in watched:
+                watched.add((key, env))
+                worst, wl, wmsg, mode = port_gaps(inst, snap, env)
+                for k in maxgap:
+                    maxgap[k] = max(maxgap[k], worst[k])
+                if wmsg:
+                    tr = path_to(seen, st) + wl
+                    out.append(Disagreement(inst, tr, len(tr) - 1, None, None, kind="monitor:" + wmsg))
+                elif port_over(inst, worst):
+                    tr = path_to(seen, st)
+                    out.append(Disagreement(inst, tr, len(tr) - 1, None, None,
+                                            kind="progress-bound: observed cooperative gaps exceed the declared bounds "
+                                                 "(what, observed, bound): %r" % (port_over(inst, worst),)))
+            for letter in inst.alphabet:
+                if not v.legal(env, letter):
+                    continue
+                n.restore(snap)
+                outs = impl_step(inst, letter)
+                impl_res.append((st, letter, outs, n.state_key(), n.snapshot()))
+                reqs.append((sid, letter))
+        model_res = lean.step_batch(reqs)
+        for (st, letter, outs, key2, snap2), (sid2, mouts) in zip(impl_res, model_res):
+            key, sid, sp, op, cp, env, armed = st
+            transitions += 1
+            if v.events(letter, outs)["handshake"]:
+                nontriv += 1
+            obey = v.obeys(sp, cp, letter)
+            mismatch = not masked_equal(inst, outs, mouts)
+            if mismatch:
+                tr = path_to(seen, st) + [letter]
+                out.append(Disagreement(inst, tr, len(tr) - 1, outs, mouts))
+            if obey and op and armed:
+                checks += 1
+                msg = v.check(op, outs)
+                if msg:
+                    tr = path_to(seen, st) + [letter]
+                    out.append(Disagreement(inst, tr, len(tr) - 1, outs, None, kind="monitor:" + msg))
+                    continue
+            if mismatch:
+                continue
+            sp2, op2, cp2 = v.pending(letter, outs)
+            st2 = (key2, sid2, sp2, op2, cp2, v.env_next(env, letter, outs), armed and obey)
+            if st2 not in seen:
+                seen[st2] = (st, letter)
+                frontier.append((snap2, st2))
+    if out:
+        exhaustive = False
+    lean.close_session()
+    n.restore(root_snap)
+    cov.add_instance(inst.name, states=len(seen), transitions=transitions, nontrivial=nontriv,
+                     exhaustive=exhaustive, mode="A")
+    b = {"handshake": 0, "delivery": 0}
+    for mode in v.coop_modes():
+        for k, kk in v.bounds(mode).items():
+            b[k] = max(b[k], kk or 0)
+    cov.instances[-1].update({"wall_s": round(time.time() - t0, 1), "impl_states_watched": len(watched),
+                              "stability_checks": checks,
+                              "max_coop_cycles_to_handshake": maxgap["handshake"], "K_declared": b["handshake"],
+                              "max_coop_cycles_to_delivery": maxgap["delivery"], "K_delivery_declared": b["delivery"]})
+    cov.hist["stability_checks"] = cov.hist.get("stability_checks", 0) + checks
+    cov.hist["watchdog_states"] = cov.hist.get("watchdog_states", 0) + len(watched)
+    return out
+
+
+def cosim_ports(inst, lean, cov, rng, cycles, runs=1, watch_every=8):
+    """Mode B for packet elements: closed-loop contract-keeping generator, monitors armed, periodic watchdog."""
+    n = inst.netlist
+    v = inst.view
+    root = n.snapshot()
+    out = []
+    for run in range(runs):
+        t_run = time.time()
+        n.restore(root)
+        lean.open(inst.lean_open)
+        mon = PortMonitor(v)
+        letters, impl_outs = [], []
+        distinct = set()
+        maxgap = {"handshake": 0, "delivery": 0}
+        watched = 0
+        stop = False
+        for t in range(cycles):
+            if t % watch_every == 0 and not stop and mon.env is not None:
+                here = n.snapshot()
+                saved = (inst.inner.last_letter, inst.inner.last_outs, inst._pend)
+                worst, wl, wmsg, mode = port_gaps(inst, here, mon.env, budget=60)
+                n.restore(here)
+                inst.inner.last_letter, inst.inner.last_outs, inst._pend = saved
+                watched += 1
+                for k in maxgap:
+                    maxgap[k] = max(maxgap[k], worst[k])
+                if wmsg:
+                    tr = list(letters) + wl
+                    out.append(Disagreement(inst, tr, len(tr) - 1, None, None, kind="monitor:" + wmsg))
+                    stop = True
+                elif port_over(inst, worst):
+                    out.append(Disagreement(inst, list(letters), len(letters) - 1, None, None,
+                                            kind="progress-bound: observed cooperative gaps exceed the declared bounds "
+                                                 "(what, observed, bound): %r" % (port_over(inst, worst),)))
+                    stop = True
+            letter = inst.gen(rng, t)
+            outs = impl_step(inst, letter)
+            letters.append(letter)
+            impl_outs.append(outs)
+            if inst.nontrivial(letter, outs):
+                distinct.add((n.state_key(), tuple(letter)))
+            if not stop:
+                m = mon.observe(letter, outs)
+                if m:
+                    out.append(Disagreement(inst, letters[:t + 1], t, outs, None, kind="monitor:" + m))
+                    stop = True
+        model_outs = lean.run(letters)
+        lean.close_session()
+        for t in range(cycles):
+            if not masked_equal(inst, impl_outs[t], model_outs[t]):
+                out.append(Disagreement(inst, letters[:t + 1], t, impl_outs[t], model_outs[t]))
+                break
+        cov.add_instance(inst.name, states=0, transitions=cycles, nontrivial=len(distinct), exhaustive=False, mode="B")
+        cov.instances[-1].update({"wall_s": round(time.time() - t_run, 1), "stability_checks": mon.checks,
+                                  "snapshots_watched": watched,
+                                  "max_coop_cycles_to_handshake": maxgap["handshake"],
+                                  "max_coop_cycles_to_delivery": maxgap["delivery"]})
+        cov.hist["stability_checks"] = cov.hist.get("stability_checks", 0) + mon.checks
+        cov.hist["watchdog_states"] = cov.hist.get("watchdog_states", 0) + watched
+        if out:
+            break
+    n.restore(root)
     return out
